@@ -1105,6 +1105,26 @@ func versionsInterleaved(o *e2eOutcome, name string) bool {
 			}
 		}
 	}
+	// the same thing where the receiver cannot see it: a request that was opened with
+	// chunks of one version of the name (queued before the file changed) is still in flight
+	// when the sender hashes the next version.  The cache entry is updated in place, so
+	// these chunks are announced - and counted by the sender's tracker - under the NEW
+	// hash with the size they were queued with (the in-place-update finding of C02)
+	for _, e := range o.events {
+		if e.Kind != "cache_add" || e.Name != name {
+			continue
+		}
+		for _, q := range o.reqs {
+			if q.Class != "data" || q.Gen != e.Gen || q.At >= e.VT || (q.End != 0 && q.End <= e.VT) {
+				continue
+			}
+			for _, p := range q.Parts {
+				if p.Name == name && p.Hash0 != "" && p.Hash0 != e.S {
+					return true
+				}
+			}
+		}
+	}
 	return false
 }
 
